@@ -69,6 +69,15 @@ var c08Templates = []c08T{
 	{"object equality with a raising and a differing entry", `bad := {'==: m{|o| raise ValueErr.new("boom")}}`, `[mark(1), {a: bad, b: 1, c: 2, d: 3} == {a: bad, b: 1, c: 9, d: 8}]`, 1, `[1, false]`},
 	{"map equality with a raising and a differing entry", `bad := {'==: m{|o| raise ValueErr.new("boom")}}`, `[mark(1), %{1: bad, 2: 1, 3: 2, 4: 3} == %{1: bad, 2: 1, 3: 9, 4: 8}]`, 1, `[1, false]`},
 	{"array of objects equality", `bad := {'==: m{|o| raise ValueErr.new("boom")}}`, `[mark(1), [{a: bad, b: 1}] == [{a: bad, b: 2}]]`, 1, `[1, false]`},
+	{"two keyword ** expansions sharing a name: first wins", `f2 := {|x: 0, y: 0| [x, y]}`, `f2(**{x: mark(1)}, **{x: 9, y: mark(2)})`, 2, `[1, 2]`},
+	{"keyword ** expansion after an explicit keyword and another expansion", `f2 := {|x: 0, y: 0| [x, y]}`, `f2(y: 1, **{x: mark(1), y: 8}, **{x: 7, y: mark(2)})`, 2, `[1, 1]`},
+	// printing: keys / parameter names that print alike must not make the order depend on the layout
+	{"map printing with keys that print alike", "", `%{1.0000001: mark(1), 1.0000002: mark(2), 1.0000003: mark(3)}.S`, 3, `"%{1.000000: 1, 1.000000: 2, 1.000000: 3}"`},
+	{"map repr with keys that print alike", "", `%{1.0000001: mark(1), 1.0000002: mark(2), 1.0000003: mark(3)}.repr`, 3, `"%{1.000000: 1, 1.000000: 2, 1.000000: 3}"`},
+	{"function printing with duplicate keyword parameters", "", `[mark(1), {|a: 1, a: 2, a: 3| a}.S]`, 1, `[1, "{|a: 1, a: 2, a: 3| a}"]`},
+	// equality calls the == of the entries in a fixed order (sorted names / insertion order)
+	{"object equality calls == of the entries in name order", `noisy := {|i| {'==: m{|o| mark(i); true}}}`, `{b: noisy(2), a: noisy(1), c: noisy(3)} == {a: 0, b: 0, c: 0}`, 3, `true`},
+	{"map equality calls == of the entries in insertion order", `noisy := {|i| {'==: m{|o| mark(i); true}}}`, `%{7: noisy(1), 3: noisy(2), 5: noisy(3)} == %{3: 0, 5: 0, 7: 0}`, 3, `true`},
 }
 
 func H_C08_order() {
